@@ -651,6 +651,37 @@ pub fn run_shard(ctx: &mut ShardCtx) {
     ctx.search("garbage", gen_garbage(), n_gb, &run_garbage);
 }
 
+/// Seed inputs for the fuzzer (harness/fuzz/fuzz_targets/wire_decode.rs): one well-formed message per variant for
+/// each decoding entry point (byte 0 picks the entry point; 2-4 take a length-prefixed frame).
+pub fn fuzz_seed_corpus() -> Vec<Vec<u8>> {
+    let reqs = [ReqM::Create("db".into()), ReqM::Open("db".into()), ReqM::Sql("SELECT 1".into()), ReqM::Explain("SELECT a FROM t".into()), ReqM::Analyze { rate_bits: 1.0f64.to_bits(), max_rows: 10 }, ReqM::Close, ReqM::Ping, ReqM::Vacuum, ReqM::Begin, ReqM::Rollback, ReqM::Commit, ReqM::Shutdown];
+    let mut v = vec![];
+    for r in &reqs {
+        let b = req_to(r).to_bytes();
+        let mut plain = vec![0u8];
+        plain.extend_from_slice(&b);
+        v.push(plain);
+        for t in [2u8, 3] {
+            let mut framed = vec![t];
+            framed.extend_from_slice(&(b.len() as u32).to_le_bytes());
+            framed.extend_from_slice(&b);
+            v.push(framed);
+        }
+    }
+    let resps = [RespM::Ok("ok".into()), RespM::Error("e".into()), RespM::Rows { columns: vec!["a".into(), "b".into()], data: vec![vec!["1".into(), "x".into()], vec!["2".into(), "".into()]] }, RespM::SessionStarted, RespM::SessionEnd, RespM::RowsAffected(3), RespM::Ddl("d".into()), RespM::Explain("p".into()), RespM::VacuumComplete { a: 1, b: 2, c: 3 }, RespM::Pong, RespM::Goodbye, RespM::ShuttingDown];
+    for r in &resps {
+        let b = resp_to(r).to_bytes();
+        let mut plain = vec![1u8];
+        plain.extend_from_slice(&b);
+        v.push(plain);
+        let mut framed = vec![4u8];
+        framed.extend_from_slice(&(b.len() as u32).to_le_bytes());
+        framed.extend_from_slice(&b);
+        v.push(framed);
+    }
+    v
+}
+
 pub fn replay(kind: &str, case: &Value) -> CaseOut {
     match kind {
         "roundtrip" => match from_value::<RoundTrip>(case) {
